@@ -85,7 +85,10 @@ def apply_mutation(ex, step, root, pool, mut, fresh):
     elif mut == "append":
         root.children.append(fresh())
     elif mut == "insert":
-        root.children.insert(ex.int("i%d" % step), fresh())
+        try:
+            root.children.insert(ex.int("i%d" % step), fresh())
+        except OverflowError:
+            pass                    # beyond a C ssize_t: refused, as by the built-in list
     elif mut == "del":
         i = ex.int("i%d" % step)
         try:
@@ -100,7 +103,10 @@ def apply_mutation(ex, step, root, pool, mut, fresh):
             pass
     elif mut == "insert_dup":
         if n:
-            root.children.insert(ex.int("i%d" % step), root.children[0])       # the same object twice
+            try:
+                root.children.insert(ex.int("i%d" % step), root.children[0])       # the same object twice
+            except OverflowError:
+                pass
         else:
             x = fresh()
             root.children.extend([x, x])
